@@ -96,7 +96,7 @@ impl Failure {
     }
 }
 
-pub const DISTINCT_CAP: usize = 1_500_000;
+pub const DISTINCT_CAP: usize = 1_000_000;
 
 /// Counters one worker accumulates; merged by the parent in run order.
 #[derive(Default)]
